@@ -95,7 +95,42 @@ def gen_case(rng) -> Dict[str, Any]:
                 args.append({"leaf": rng.choice(list(LEAVES))})
         return {"f": s["name"], "style": "meth" if s["methodObject"] else "func", "args": args}
 
-    return {"kind": "query", "backend": "atlas", "specs": specs, "cols": [call(0) for _ in range(rng.choice([1, 2]))]}
+    case = {"kind": "query", "backend": "atlas", "specs": specs, "cols": [call(0) for _ in range(rng.choice([1, 2]))]}
+    case["wraps"] = [None] * len(case["cols"])
+    case["wants"] = [None] * len(case["cols"])
+    if rng.random() < 0.3:
+        o = gen_object_column(rng)
+        case["specs"] = specs + [o["spec"]]
+        case["cols"].append(o["col"])
+        case["wraps"].append(o["wrap"])
+        case["wants"].append(o["want"])
+    return case
+
+
+OBJ_TYPES = ["Trk", "Trk*", "const Trk*"]
+
+
+def gen_object_column(rng) -> Dict[str, Any]:
+    """a collection-valued (or object-valued) injected function over the mock track type: value, pointer and
+    const-pointer element types; consumed by Count(), by summing the elements' pt(), or by .pt()"""
+    ty = rng.choice(OBJ_TYPES)
+    amp = "&" if ty.endswith("*") else ""
+    coll = rng.random() < 0.75
+    name = rng.choice(["trkOf", "ghostTrk"]) if coll else "firstTrk"
+    p = rng.choice(["x", "pt", "eta"])
+    if coll:
+        code = [f"std::vector<{ty}> result;", f"result.push_back({amp}g_trk[0]);", f"if ({p} < 100) result.push_back({amp}g_trk[1]);"]
+        wrap = rng.choice(["count", "sum"])
+        want = 2.0 if wrap == "count" else 4.0
+    else:
+        code = [f"{ty} result = {amp}g_trk[1];", f"(void)({p});"]
+        wrap, want = "pt", 2.5
+    spec = {"name": name, "includes": [], "args": [p], "code": code, "result": "result", "retType": ty, "isCollection": coll,
+            "methodObject": None, "_trees": []}
+    return {"spec": spec, "col": {"f": name, "style": "func", "args": [{"leaf": rng.choice(list(LEAVES))}]}, "wrap": wrap, "want": want}
+
+
+WRAP_SRC = {None: "", "count": ".Count()", "sum": ".Select(lambda t: t.pt()).Sum()", "pt": ".pt()"}
 
 
 def meaning(t, specs: Dict[str, Dict[str, Any]]) -> float:
@@ -118,6 +153,8 @@ def tree_src(t) -> str:
 PRELUDE = """#include <cstdio>
 #include <vector>
 #include <cmath>
+struct Trk { double v; double pt() const {return v;} };
+static Trk g_trk[2] = {{1.5}, {2.5}};
 struct Jet { double pt() const {return 3.0;} double eta() const {return -2.0;} double phi() const {return 0.5;} double m() const {return 7.0;} };
 """
 
@@ -169,12 +206,17 @@ def run(ctx, n: int = 600):
     prepared = []
     for k, c in enumerate(cases):
         pub = {**c, "specs": [{a: b for a, b in s.items() if a != "_trees"} for s in c["specs"]]}
-        src = "lambda j: " + ("(" + ", ".join(tree_src(t) for t in c["cols"]) + ")" if len(c["cols"]) > 1 else tree_src(c["cols"][0]))
+        pub = {k_: v_ for k_, v_ in pub.items() if k_ != "wants"}
+        srcs = [tree_src(t) + WRAP_SRC[w] for t, w in zip(c["cols"], c["wraps"])]
+        src = "lambda j: " + ("(" + ", ".join(srcs) + ")" if len(srcs) > 1 else srcs[0])
         r = impl.translate_query("atlas", pub["specs"], src)
         smap = {}
         for s in reversed(c["specs"]):
             smap[s["name"]] = s
-        want = [meaning(t, smap) for t in c["cols"]]
+        want = [w if w is not None else meaning(t, smap) for t, w in zip(c["cols"], c["wants"])]
+        for sp, w in zip([smap[t["f"]] for t in c["cols"]], c["wraps"]):
+            if w is not None:
+                ctx.count("exec:object-result:" + ("collection of " if sp["isCollection"] else "") + sp["retType"] + ":" + w)
         ctx.count("exec:cases")
         ctx.case("exec:" + json.dumps(pub, sort_keys=True), True, None)
         if "text" not in r:
